@@ -2,7 +2,11 @@
 # evaluates the registered check of property <ID> against seeded change <ID>/<k>: applies the patch to /repo, runs the
 # quick check, reverts /repo straight afterwards.  usage: seed_eval.sh <ID> <k> [property-to-check]
 id=$1; k=$2; pid=${3:-$id}; d=/verif/seeded/$id-$k
-cd /repo && git apply $d/patch.diff || { echo "apply failed"; exit 2; }
-cd /verif && NV_CBMC_TIMEOUT=900 ./check $pid --no-evidence > $d/check_$pid.log 2>&1; rc=$?
-cd /repo && git checkout -- . 
+# EVAL_REPO=<scratch worktree of /repo>: evaluate there (through NV_REPO) instead of in /repo itself, so that /repo stays clean for
+# the evidence runs and several evaluations can run side by side; the check code and the patch are the same
+R=${EVAL_REPO:-/repo}
+cd $R && git apply $d/patch.diff || { echo "$id-$k apply failed (library HEAD moved since the seed was made)"; exit 2; }
+if [ "$R" = "/repo" ]; then cd /verif && NV_CBMC_TIMEOUT=900 ./check $pid --no-evidence > $d/check_$pid.log 2>&1; rc=$?
+else cd /verif && NV_REPO=$R NV_SCRATCH=${EVAL_SCRATCH:-$R.scratch} NV_CBMC_TIMEOUT=900 ./check $pid --no-evidence > $d/check_$pid.log 2>&1; rc=$?; fi
+cd $R && git checkout -- . 
 echo "$id-$k check($pid) exit=$rc :: $(grep -c 'refuted:' $d/check_$pid.log) refuted, $(grep -c '^UNDECIDED' $d/check_$pid.log) undecided, $(grep -c '^VIOLATION' $d/check_$pid.log) violation lines ($(grep '^VIOLATION' $d/check_$pid.log | grep -vc no-failing-input-found) replayed)"
